@@ -10,6 +10,12 @@ CLAIMED = {
    design_ref='DESIGN.md §3 C14',
    note='Helper-internal interleavings finer than a request are not scheduled (single-threaded strict request/reply listener). "At most one query" is read as at most one Script constructed after the death; Scripts bound to the dead helper may keep raising InternalError. A silent or hanging (alive but mute) helper is not injected. The stderr drain thread runs unscheduled.',
    technique='deterministic simulation with fault injection: seeded helper-death schedules through a pipe proxy, model-based judge, exhaustive single-fault sweep in thorough'),
+ 'C16': dict(
+   category='exploration',
+   text='The nondeterminism sources are the explored dimensions: each generated input (world + buffer with multi-valued shapes + probe table incl. failing requests) is executed in a base process (every probe on a fresh Script) and in K further processes differing in PYTHONHASHSEED, seeded allocator perturbation and GC schedule (ASLR off, so a run is a function of its spec); then on ONE Script under a seeded schedule (permutation with repetitions, ValueError/RefactoringError requests in between) and under the same schedule with 1-3 helper replies replaced by exceptions through the pipe proxy. Oracle: every occurrence of a probe, in any process or schedule position, equals the base result as an ordered list (set for goto).',
+   design_ref='DESIGN.md §3 C16',
+   note='Seeded sampling of (hash seed, heap layout, schedule); a clean batch is evidence, not proof. Asynchronous exceptions in the host are not injected. A query that swallowed an injected helper exception (did not raise) makes the rest of that Script inconclusive. RecursionError results are inconclusive (no typeshed in this sandbox).',
+   technique='deterministic simulation: seeded hash-seed x allocator x GC x query-schedule exploration with injected failing requests, cross-run equality oracle'),
 }
 
 NA = {
@@ -31,7 +37,6 @@ NA = {
 PENDING = {
  'C08': 'check not built yet (planned: edit-history simulation, see DESIGN.md §3)',
  'C09': 'check not built yet (planned: file-system-history simulation, see DESIGN.md §3)',
- 'C16': 'check not built yet (planned: hash seed x allocator x schedule exploration, see DESIGN.md §3)',
  'C12': 'check not built yet (planned: sentinel/host/helper state conservation, see DESIGN.md §3)',
  'C07': 'check not built yet (planned: disk-effect clauses, see DESIGN.md §3)',
 }
